@@ -342,6 +342,7 @@ func (c *conn) closeChannels() {
 
 func (c *conn) createChannel() (Channel, bool, status.Status) {
 	// Check flags
+	vtr("cr.check1", bin.Bin128{}, 0, 0)
 	switch {
 	case c.channelsClosed.Load():
 		return nil, false, statusConnClosed
@@ -364,11 +365,14 @@ func (c *conn) createChannel() (Channel, bool, status.Status) {
 	}()
 
 	// Add channel
+	vtr("cr.set", id, 0, 0)
 	c.channels.Set(id, ch)
 	c.maybeChannelsReached()
 
 	// Check again
+	vtr("cr.check2", id, 0, 0)
 	if c.channelsClosed.Load() {
+		vtr("cr.del", id, 0, 0)
 		if _, ok := c.channels.Delete(id); !ok {
 			// The closing connection has already removed the channel and freed its own reference,
 			// only the user reference is left to release.
